@@ -270,6 +270,8 @@ func applyKnownC03(cl jwt.Claims) []string {
 
 func runC03(c *Ctx) {
 	w := c.newCaseWriter("codec", "From JWT Require Import Model.Claims.\nOpen Scope Z_scope.", "ckind * val * json * val", "ccase_ok")
+	wp := c.newCaseWriter("probe", "From JWT Require Import Model.Pipeline.\nOpen Scope Z_scope.", "ckind * json * string", "prich_ok")
+	defer wp.flush()
 	kr := newKeyring()
 	g := &valGen{rng: c.Rng, kr: kr, fill: 50, scopeByValue: true, wideInts: true}
 	perKind := 40
@@ -407,6 +409,8 @@ func runC03(c *Ctx) {
 				raw, _ := b64.DecodeString(ch[1])
 				term := fmt.Sprintf("(%s, %s, %s, %s)", kindCoq[kind], vterm, schema.JSONTerm(raw), dterm)
 				w.add(term, inp)
+				// the decoder's JSON-level steps as the end-to-end theorem defines them, on this real payload
+				wp.add(fmt.Sprintf("(%s, %s, %s)", kindCoq[kind], schema.JSONTerm(raw), coqStr(d.Claims().Issuer)), inp)
 			}
 			if i%131 == 0 {
 				c.sample(map[string]interface{}{"kind": kind, "signer_role": s.role, "payload": string(func() []byte { r, _ := b64.DecodeString(strings.Split(tok, ".")[1]); return r }())})
